@@ -201,6 +201,7 @@ pub fn panic_kind(p: &str) -> String {
 }
 
 pub fn guard<T>(f: impl FnOnce() -> R<T>) -> Out<T> {
+    crate::tick();
     GUARD_DEPTH.with(|d| d.set(d.get() + 1));
     let r = catch_unwind(AssertUnwindSafe(f));
     GUARD_DEPTH.with(|d| d.set(d.get() - 1));
